@@ -17,6 +17,8 @@ DIMS = {
     "range": ["300-700", "100-900", "0-1", "62.5-112.5"],
     "master_names": ["plain", "suffix"],
     "toml_order": ["ascending", "descending", "default_last"],
+    # a second axis, declared after wght (not in alphabetical tag order), with one more master along it
+    "axes": ["one", "two"],
 }
 K = {"quick": 1, "thorough": 2}
 VARIANT = {
@@ -25,6 +27,12 @@ VARIANT = {
     "nonuniform": aff.around(aff.sc(1.1, 0.9), 50, 50),
     "shrink": aff.around(aff.sc(0.6), 30, 70),
 }
+
+
+def _move(node, mm):
+    if isinstance(node, Group):
+        return Group(node.opacity, [_move(k, mm) for k in node.kids])
+    return Shape(place(node.d, mm), node.paint, node.opacity, node.label)
 
 
 def master_scenes(a):
@@ -69,8 +77,11 @@ def instance(data, loc):
     from vmc.oracles import colrvar
 
     vf = TTFont(io.BytesIO(data))
-    inst = instancer.instantiateVariableFont(TTFont(io.BytesIO(data)), {"wght": loc})
-    return colrvar.instantiate_colr(vf, inst, {"wght": loc})
+    loc = dict(loc) if isinstance(loc, dict) else {"wght": loc}
+    for ax in vf["fvar"].axes:  # pin every axis: the ones not named sit at their default
+        loc.setdefault(ax.axisTag, ax.defaultValue)
+    inst = instancer.instantiateVariableFont(TTFont(io.BytesIO(data)), loc)
+    return colrvar.instantiate_colr(vf, inst, loc)
 
 
 def execute(dev):
@@ -93,6 +104,18 @@ def execute(dev):
         # master names: plain (m0, m1, ...) or names one of which is a suffix of an earlier one
         mnames = [f"m{i}" for i in range(len(masters))] if a["master_names"] == "plain" else ["regular", "semibold", "bold"][-len(masters):] if len(masters) == 2 else ["regular", "semibold", "bold"]
         # the order in which the masters appear in the TOML is not the order of their positions
+        two = a["axes"] == "two"
+        locs = [{"wght": p} for p in pos]
+        if two:
+            cfg["axis"]["wdth"] = {"name": "Width", "default": 100}
+            locs = [dict(l, wdth=100) for l in locs]
+            # the extra master along the second axis: the default master's scene moved by another affine map
+            mm = aff.tr(-4, 5)
+            wide = [Glyph(g.cps, g.vb, [_move(n, mm) for n in g.nodes]) for g in masters[pos.index(default)]]
+            masters = masters + [wide]
+            pos = pos + [default]
+            locs = locs + [{"wght": default, "wdth": 125}]
+            mnames = mnames + ["wide"]
         idx = list(range(len(masters)))
         if a["toml_order"] == "descending":
             idx.reverse()
@@ -102,7 +125,7 @@ def execute(dev):
         for i in idx:
             gl, p = masters[i], pos[i]
             files = cli.write_sources(w / f"m{i}", [(f"emoji_u{'_'.join('%04x' % c for c in g.cps)}.svg", g.svg()) for g in gl])
-            cfg["master"][mnames[i]] = {"style_name": mnames[i].title(), "position": {"wght": p}, "srcs": [str(f) for f in files]}
+            cfg["master"][mnames[i]] = {"style_name": mnames[i].title(), "position": locs[i], "srcs": [str(f) for f in files]}
         (w / "vf.toml").write_text(toml.dumps(cfg))
         r = cli.nanoemoji(w, [w / "vf.toml"], timeout=900)
         out = w / "build" / "VF.ttf"
@@ -115,7 +138,7 @@ def execute(dev):
         data = out.read_bytes()
         vs = []
         static_over = {"upem": upem, "ascender": asc, "descender": desc, "width": a["width"], "color_format": "glyf_colr_1", "output_file": "x.ttf"}
-        for i, (gl, p) in enumerate(zip(masters, pos)):
+        for i, (gl, p) in enumerate(zip(masters, locs)):
             inst = instance(data, p)
             scfg, sfont, _ = inproc.build_direct([(g.cps, g.svg()) for g in gl], static_over)
             if "COLR" not in inst:
@@ -150,6 +173,9 @@ def execute(dev):
         vf = TTFont(io.BytesIO(data))
         di = pos.index(default)
         ax = [x for x in vf["fvar"].axes if x.axisTag == "wght"]
+        ax2 = [(x.minValue, x.defaultValue, x.maxValue) for x in vf["fvar"].axes if x.axisTag == "wdth"]
+        if two and ax2 != [(100, 100, 125)]:
+            vs.append(bad("C18.default-is-default-master", f"fvar wdth (min, default, max) = {ax2}, configured (100, 100, 125)"))
         if len(ax) != 1 or (ax[0].minValue, ax[0].defaultValue, ax[0].maxValue) != (min(pos), default, max(pos)):
             vs.append(bad("C18.default-is-default-master", f"fvar wght (min, default, max) = {[(x.minValue, x.defaultValue, x.maxValue) for x in ax]}, "
                           f"configured default {default}, master positions {pos}"))
@@ -165,7 +191,7 @@ def execute(dev):
                 if len(cv) != len(cd) or any(abs(p1[0] - p2[0]) > 1 or abs(p1[1] - p2[1]) > 1 for p1, p2 in zip(cv, cd)):
                     vs.append(bad("C18.default-is-default-master", f"{[hex(c) for c in g.cps]}: the font's default outline of {nv} is not the default master's"))
         # the clip box in force contains the interpolated geometry at every location
-        lo, hi = pos[0], pos[-1]
+        lo, hi = min(pos), max(pos)
         for t in (0.25, 0.5, 0.75):
             loc = lo + (hi - lo) * t
             inst = instance(data, loc)
